@@ -107,6 +107,18 @@ Proof. intros (P & C & M). split; [exact P|split; [exact C|]]. intros y Hy. appl
 Lemma pre_set_res s s1 h r : pre_of s s1 h -> pre_of s (set_res s1 r) h.
 Proof. intros (P & C & M). split; [exact P|split; [exact C|]]. intros y Hy. apply M. exact Hy. Qed.
 
+Lemma pre_same s s1 s2 h : same_but_outcome s1 s2 -> pre_of s s1 h -> pre_of s s2 h.
+Proof.
+  intros F (P & C & M). destruct F. split; [congruence|split; [congruence|]]. intros y Hy. apply M.
+  apply hosts_nil_split in Hy. apply hosts_nil_split. rewrite sbo_att, sbo_queue, sbo_errors in Hy. exact Hy.
+Qed.
+
+Lemma pre_fail_with s s1 h x : pre_of s s1 h -> pre_of s (fail_with s1 x) h.
+Proof. apply pre_same, fail_with_same. Qed.
+
+Lemma pre_finish_with s s1 h r : pre_of s s1 h -> pre_of s (finish_with s1 r) h.
+Proof. apply pre_same, finish_with_same. Qed.
+
 Lemma pre_set_spec s s1 h a l : pre_of s s1 h -> pre_of s (set_spec s1 a l) h.
 Proof. intros (P & C & M). split; [exact P|split; [exact C|]]. intros y Hy. apply M. exact Hy. Qed.
 
@@ -183,32 +195,32 @@ Lemma set_result_pre c s s0 h r s' ev : pre_of s s0 h -> set_result c s0 h r = (
   pre_of s s' h /\ plan_sends ev = [] /\ sent_hosts ev = [].
 Proof.
   intros Pre H. destruct r; cbn [set_result] in H.
-  - inversion H; subst. split; [apply pre_set_res; assumption|auto].
-  - inversion H; subst. split; [apply pre_set_res; assumption|auto].
-  - inversion H; subst. split; [apply pre_set_res; assumption|auto].
+  - inversion H; subst. split; [apply pre_finish_with; assumption|auto].
+  - inversion H; subst. split; [apply pre_finish_with; assumption|auto].
+  - inversion H; subst. split; [apply pre_finish_with; assumption|auto].
   - destruct (pol c (nconsult s0) k tag (retries s0) (if request_error_kind k then msg_cl s0 else None)) as [d dcl].
     unfold handle_decision in H. inversion H; subst; clear H. split; [|auto].
     apply pre_set_err. destruct d.
     + apply pre_bump; [reflexivity|apply pre_tick; assumption].
-    + apply pre_set_exc, pre_tick; assumption.
-    + apply pre_set_res, pre_tick; assumption.
+    + apply pre_fail_with, pre_tick; assumption.
+    + apply pre_finish_with, pre_tick; assumption.
     + apply pre_bump; [reflexivity|apply pre_tick; assumption].
   - unfold unprepared in H.
     assert (G : forall ps, unprep_go c s0 h ps = (s', ev) -> pre_of s s' h /\ plan_sends ev = [] /\ sent_hosts ev = []).
     { intros [[pid qs] ks] G. unfold unprep_go in G.
       destruct (negb (uses_ks c) && is_some ks && negb (opt_eqb (conn_ks s0) ks)); inversion G; subst.
-      - split; [apply pre_set_exc; assumption|auto].
+      - split; [apply pre_fail_with; assumption|auto].
       - split; [apply pre_push; [reflexivity|assumption]|auto]. }
     destruct (fut_ps c) as [[[pid pqs] pks]|].
     + destruct (negb (pid =? id)).
-      * inversion H; subst. split; [apply pre_set_exc; assumption|auto].
+      * inversion H; subst. split; [apply pre_fail_with; assumption|auto].
       * destruct (lookup (known c) id); apply G in H; exact H.
     + destruct (lookup (known c) id).
       * apply G in H; exact H.
-      * inversion H; subst. split; [apply pre_set_exc; assumption|auto].
-  - inversion H; subst. split; [apply pre_set_exc; assumption|auto].
-  - inversion H; subst. split; [apply pre_set_exc; assumption|auto].
-  - inversion H; subst. split; [apply pre_set_exc; assumption|auto].
+      * inversion H; subst. split; [apply pre_fail_with; assumption|auto].
+  - inversion H; subst. split; [apply pre_fail_with; assumption|auto].
+  - inversion H; subst. split; [apply pre_fail_with; assumption|auto].
+  - inversion H; subst. split; [apply pre_fail_with; assumption|auto].
 Qed.
 
 Lemma after_prepare_ok c s s0 h r s' ev : pre_of s s0 h -> (K -> in_cons s h) -> after_prepare c s0 h r = (s', ev) ->
@@ -225,11 +237,11 @@ Proof.
     apply (query_or_next_ok _ _ _ _ _ _ Q Nc). apply Hh0, P1. }
   destruct (is_some (fin_exc s0)); [inversion H; subst; apply Kpre; assumption|].
   destruct r.
-  - inversion H; subst. apply Kpre, pre_set_exc; assumption.
-  - inversion H; subst. apply Kpre, pre_set_exc; assumption.
+  - inversion H; subst. apply Kpre, pre_fail_with; assumption.
+  - inversion H; subst. apply Kpre, pre_fail_with; assumption.
   - destruct (fut_ps c) as [[[pid pqs] pks]|].
     + destruct (negb (pid =? id)).
-      * inversion H; subst. apply Kpre, pre_set_exc; assumption.
+      * inversion H; subst. apply Kpre, pre_fail_with; assumption.
       * eapply Kq; eauto. discriminate.
     + eapply Kq; eauto. discriminate.
   - destruct (is_conn_kind k).
@@ -238,11 +250,11 @@ Proof.
       apply (ok_trans_trans s (set_err s0 h (EResp k tag)) s' [ErrSet h (EResp k tag)] ev2).
       * apply (pre_ok s _ h); auto.
       * eapply send_request_ok; eauto.
-    + inversion H; subst. apply Kpre, pre_set_exc; assumption.
-  - inversion H; subst. apply Kpre, pre_set_exc; assumption.
-  - inversion H; subst. apply Kpre, pre_set_exc; assumption.
-  - inversion H; subst. apply Kpre, pre_set_exc; assumption.
-  - inversion H; subst. apply Kpre, pre_set_exc; assumption.
+    + inversion H; subst. apply Kpre, pre_fail_with; assumption.
+  - inversion H; subst. apply Kpre, pre_fail_with; assumption.
+  - inversion H; subst. apply Kpre, pre_fail_with; assumption.
+  - inversion H; subst. apply Kpre, pre_fail_with; assumption.
+  - inversion H; subst. apply Kpre, pre_fail_with; assumption.
 Qed.
 
 Lemma run_task_ok c s s0 t s' ev : pre_of s s0 (task_host t) -> (K -> in_cons s (task_host t)) ->
